@@ -124,6 +124,39 @@ def gen_cases(tier, seed):
                           'dims': list(r.choice([(2, 2), (2, 3), (3, 2)]))})
     finally:
         G.PREFS[:] = saved
+    # an inner contraction that already carries every target index (the rest of
+    # the term are traces / scalars), non-canonical target orders
+    r2 = rng_for(seed, 'C17-inner', tier)
+    for q in range(14 if tier == 'quick' else 120):
+        shape = r2.choice(['chain', 'chain', 'mixed'])
+        if shape == 'chain':
+            objs = [{'t': 'non', 'name': 'x', 'up': ['i', 'j']},
+                    {'t': 'non', 'name': 'y', 'up': ['j', 'k']}]
+            order = ['k', 'i']
+        else:
+            objs = [{'t': 'non', 'name': 'x', 'up': ['i', 'k', 'a', 'c']},
+                    {'t': 'non', 'name': 'y', 'up': ['j', 'k', 'b', 'c']}]
+            order = r2.choice([['i', 'a', 'j', 'b'], ['b', 'j', 'a', 'i'],
+                               ['a', 'b', 'i', 'j'], ['j', 'a', 'i', 'b']])
+        for _ in range(r2.choice([1, 1, 2])):
+            tr = r2.choice([{'t': 'non', 'name': 'z', 'up': ['l', 'l']},
+                            {'t': 'anti', 'name': 'f', 'up': ['m'], 'lo': ['m'],
+                             'bk': 0},
+                            {'t': 'anti', 'name': 'f', 'up': ['d'], 'lo': ['d'],
+                             'bk': 0}])
+            if tr not in objs:
+                objs.append(tr)
+        if r2.random() < 0.3:
+            r2.shuffle(order)
+        cases.append({'id': f'C17-{tier[0]}{seed}-inner{q:03d}',
+                      'terms': [{'pref': r2.choice(['1', '-2', '1/2']),
+                                 'objs': objs}],
+                      'order': order,
+                      'opts': {'anti': False, 'split': None, 'bk': 0,
+                               'backend': r2.choice(['einsum', 'einsum',
+                                                     'libtensor']),
+                               'optimize': True, 'kw': {}},
+                      'mseed': r2.randrange(1 << 30), 'dims': [2, 3]})
     # fixed exhibit of the open finding F9: delta_ij d^a_b + d^i_j delta_ab
     dten = lambda p_, q_: {'t': 'anti', 'name': 'd', 'up': [p_], 'lo': [q_],  # noqa: E731,E501
                            'bk': 0}
